@@ -16,7 +16,8 @@ Definition TBfin (x : tlocal * rcode) (H : list hold) (K : bool) : Prop :=
 
 Section A.
 Variable bl : list hold -> lock -> Prop.
-Notation wp := (wp bl).
+Variable pz : Prop.
+Notation wp := (wp bl pz).
 Implicit Types (Qr : val -> post) (Qt QF : post) (H : list hold) (K : bool).
 
 (* ---------------------------------------------------------------- pieces *)
@@ -69,16 +70,48 @@ Proof.
   apply wp_cs_list; assumption.
 Qed.
 
+(* a closure that contains no panic never throws: nothing is demanded of the unwind handler *)
+Definition no_cpanic (body : list csop) : Prop := ~ In CPanic body.
+
+Lemma wp_cs_prog_nt m items o H K Qr Qt QF :
+  o <> CPanic -> covers m items H -> (forall v, Qr v H K) -> wp (cs_prog m items o) H K Qr Qt QF.
+Proof.
+  intros NP CV Q. destruct o as [pos|pos| |]; cbn [cs_prog].
+  - destruct (nth_leaf items pos) as [[k l]|] eqn:N; [|apply Q]. cbn [Wp.wp op_]. split; [|intros n; apply Q].
+    exists (hx k m). apply (CV (k, l)). unfold nth_leaf in N. now apply nth_error_In in N.
+  - destruct m; [apply Q|]. destruct (nth_leaf items pos) as [[k l]|] eqn:N; [|apply Q]. cbn [Wp.wp op_]. split; [|apply Q].
+    unfold nth_leaf in N. apply nth_error_In in N. specialize (CV (k, l) N). unfold hold_of in CV. cbn [fst snd] in CV.
+    destruct k; exact CV.
+  - contradiction.
+  - cbn [Wp.wp op_]. apply Q.
+Qed.
+
+Lemma wp_cs_list_nt m items body H K Qr Qt QF :
+  no_cpanic body -> covers m items H -> Qr VUnit H K -> wp (seqs (map (cs_prog m items) body)) H K Qr Qt QF.
+Proof.
+  intros NP CV Q. induction body as [|o r IH]; cbn [map seqs]; [exact Q|].
+  apply wp_then. apply wp_cs_prog_nt; [intros E; apply NP; left; now symmetry|exact CV|].
+  intros _. apply IH. intros X. apply NP. now right.
+Qed.
+
+Lemma wp_closure_nt m items body H K Qr Qt QF :
+  no_cpanic body -> covers m items H -> Qr VUnit H K -> wp (closure m items body) H K Qr Qt QF.
+Proof.
+  intros NP CV Q. unfold closure. apply wp_then. cbn [Wp.wp op_]. apply wp_then. apply wp_see_all.
+  apply wp_cs_list_nt; assumption.
+Qed.
+
 Lemma wp_drop_items m items : forall unw H K Qr Qt QF,
+  (unw = true -> pz) ->
   sub_ok (holds_of m (gleaves items)) H ->
   Qr VUnit (rel_all (holds_of m (gleaves items)) H) K -> wp (drop_items m unw items) H K Qr Qt QF.
 Proof.
-  induction items as [|[k l|p] r IH]; intros unw H K Qr Qt QF S Q; cbn [drop_items gleaves].
+  induction items as [|[k l|p] r IH]; intros unw H K Qr Qt QF Z S Q; cbn [drop_items gleaves].
   - exact Q.
   - cbn [gleaves holds_of map sub_ok rel_all fold_left] in S, Q. destruct S as [S1 S2]. destruct unw.
     + apply wp_then. cbn [Wp.wp]. apply wp_leaf_unlock; [exact S1|]. apply IH; assumption.
     + apply wp_then. cbn [Wp.wp]. apply wp_leaf_unlock; [exact S1|]. apply IH; assumption.
-  - apply wp_then. destruct unw; [cbn [Wp.wp op_]|cbn [Wp.wp skip]]; apply IH; assumption.
+  - apply wp_then. destruct unw; [cbn [Wp.wp op_]; split; [now apply Z|]|cbn [Wp.wp skip]]; apply IH; assumption.
 Qed.
 
 Lemma wp_with_key (dp dd : bool) body H K Qr Qt QF :
@@ -113,16 +146,21 @@ Lemma wp_scoped_rest (m : mode) (s : shape) (a : alg) (lent : bool) (body : list
   (forall (Qr' : val -> post) (Qt' : post), (forall H', Permutation H' (holds_of m (alg_leaves a)) -> Qr' VUnit H' K) -> wp acq H0 K Qr' Qt' QF) ->
   Qr (VNat 0) [] (if lent then K else false) ->
   Qt [] (if lent then K else false) ->
+  pz \/ no_cpanic body ->
   wp (scoped_rest m s a lent body acq) H0 K Qr Qt QF.
 Proof.
-  intros PL ACQ Q T. unfold scoped_rest.
+  intros PL ACQ Q T ZN. unfold scoped_rest.
   assert (CV : forall H', Permutation H' (holds_of m (alg_leaves a)) -> covers m (gitems s) H').
   { intros H' P. apply covers_perm. rewrite P. unfold holds_of. now apply Permutation_map. }
   destruct (root_poison s) as [p|].
   - cbn [Wp.wp]. apply wp_with_key. apply wp_then. apply ACQ. intros H' P. apply wp_then. cbn [Wp.wp].
-    apply wp_closure; [now apply CV| |].
-    + apply wp_raw_unlock; [apply (sub_ok_perm _ _ []); now rewrite app_nil_r|]. rewrite (rel_all_perm_nil _ _ P). destruct lent; cbn [negb]; exact Q.
-    + apply wp_then. cbn [Wp.wp op_]. apply wp_raw_unlock; [apply (sub_ok_perm _ _ []); now rewrite app_nil_r|]. rewrite (rel_all_perm_nil _ _ P). destruct lent; cbn [negb]; exact T.
+    assert (QQ : wp (raw_unlock m a) H' K (fun v H1 K1 => Qr (VNat 0) H1 (if negb lent then false else K1))
+                    (fun H1 K1 => Qt H1 (if negb lent then false else K1)) QF).
+    { apply wp_raw_unlock; [apply (sub_ok_perm _ _ []); now rewrite app_nil_r|]. rewrite (rel_all_perm_nil _ _ P). destruct lent; cbn [negb]; exact Q. }
+    destruct ZN as [Z|NP].
+    + apply wp_closure; [now apply CV|exact QQ|].
+      apply wp_then. cbn [Wp.wp op_]. split; [exact Z|]. apply wp_raw_unlock; [apply (sub_ok_perm _ _ []); now rewrite app_nil_r|]. rewrite (rel_all_perm_nil _ _ P). destruct lent; cbn [negb]; exact T.
+    + apply wp_closure_nt; [exact NP|now apply CV|exact QQ].
   - cbn [Wp.wp]. apply wp_with_key. apply wp_then. apply ACQ. intros H' P. cbn [Wp.wp].
     apply wp_closure; [now apply CV| |].
     + apply wp_then. apply wp_raw_unlock; [apply (sub_ok_perm _ _ []); now rewrite app_nil_r|]. rewrite (rel_all_perm_nil _ _ P). cbn [Wp.wp]. destruct lent; cbn [negb]; exact Q.
@@ -135,7 +173,16 @@ End A.
 Section B.
 (* the blocking condition may depend on the call that is running *)
 Variable blk : apiop -> list hold -> lock -> Prop.
+Variable pz : Prop.
 Implicit Types (Qr : val -> post) (Qt QF : post) (H : list hold) (K : bool).
+
+(* a call in which user code does not panic: no `panic!` with a key or guard in hand, no panicking closure *)
+Definition nopanic_op (o : apiop) : Prop :=
+  match o with
+  | APanic => False
+  | AAcquire _ _ (FScoped _ body | FScopedTry _ body) => no_cpanic body
+  | _ => True
+  end.
 
 (* what the scenario has to provide: every collection is an acquirable root whose blocking acquisitions satisfy the
    condition of the call that makes them *)
@@ -167,12 +214,12 @@ Qed.
 Ltac fin_nostop := split; [|cbn [snd stops]; intros X; discriminate X].
 
 Lemma api_wp e lc o p H K :
-  env_ok e -> TB lc H K -> o <> AGuardForget -> api_prog e lc o = Some p ->
-  Wp.wp (blk o) p H K (fun v H' K' => TBfin (api_fin e lc o (ODone v)) H' K')
+  env_ok e -> TB lc H K -> o <> AGuardForget -> api_prog e lc o = Some p -> pz \/ nopanic_op o ->
+  Wp.wp (blk o) pz p H K (fun v H' K' => TBfin (api_fin e lc o (ODone v)) H' K')
                       (fun H' K' => TBfin (api_fin e lc o OPanic) H' K')
                       (fun H' K' => TBfin (api_fin e lc o OFuel) H' K').
 Proof.
-  intros EO T NF E. destruct o as [| | |c m f| | | |pos|pos| |c|c|c]; cbn [api_prog] in E.
+  intros EO T NF E ZN. destruct o as [| | |c m f| | | |pos|pos| |c|c|c]; cbn [api_prog] in E.
   - (* AKeyGet *) injection E as <-. cbn [Wp.wp]. cbn [api_fin]. fin_nostop. cbn [fst].
     unfold TB in *. cbn [guard haskey]. destruct (guard lc) as [g|].
     + destruct T as [P [Hk Kt]]. subst K. rewrite Hk. cbn [negb vtrue orb]. auto.
@@ -206,6 +253,7 @@ Proof.
       * intros Qr' Qt' Q. apply wp_raw_lock; [exact AOK|apply FUEL|exact Q].
       * cbn [api_fin]. fin_nostop. cbn [fst]. apply tb_none; [reflexivity|]. destruct lent; [reflexivity|discriminate].
       * cbn [api_fin is_lent]. fin_nostop. cbn [fst]. apply tb_none; [reflexivity|]. destruct lent; [reflexivity|discriminate].
+      * exact ZN.
     + (* scoped try *)
       cbn [Wp.wp]. apply wp_with_key. apply wp_raw_try.
       * intros H' P. rewrite app_nil_r in P. cbn [vtrue]. apply wp_scoped_rest.
@@ -213,25 +261,26 @@ Proof.
         -- intros Qr' Qt' Q. cbn [Wp.wp skip]. apply Q. exact P.
         -- cbn [api_fin]. fin_nostop. cbn [fst]. apply tb_none; [reflexivity|]. destruct lent; [reflexivity|discriminate].
         -- cbn [api_fin is_lent]. fin_nostop. cbn [fst]. apply tb_none; [reflexivity|]. destruct lent; [reflexivity|discriminate].
+        -- exact ZN.
       * intros H' P. apply Permutation_sym, Permutation_nil in P. subst H'. cbn [vtrue Wp.wp api_fin]. fin_nostop. exact T.
   - (* AGuardDrop *) destruct (guard lc) as [g|] eqn:G; [|discriminate]. injection E as <-.
     destruct (tb_guard lc g H K T G) as [P [Hk Kt]]. apply wp_with_key. unfold ghold in P.
-    apply wp_drop_items; [apply (sub_ok_perm _ _ []); now rewrite app_nil_r|].
+    apply wp_drop_items; [discriminate|apply (sub_ok_perm _ _ []); now rewrite app_nil_r|].
     rewrite (rel_all_perm_nil _ _ P). cbn [api_fin]. fin_nostop. cbn [fst]. apply tb_none; [reflexivity|discriminate].
   - (* AGuardUnlock *) destruct (guard lc) as [g|] eqn:G; [|discriminate]. injection E as <-.
     destruct (tb_guard lc g H K T G) as [P [Hk Kt]]. apply wp_with_key. unfold ghold in P.
-    apply wp_drop_items; [apply (sub_ok_perm _ _ []); now rewrite app_nil_r|].
+    apply wp_drop_items; [discriminate|apply (sub_ok_perm _ _ []); now rewrite app_nil_r|].
     rewrite (rel_all_perm_nil _ _ P). cbn [api_fin]. fin_nostop. cbn [fst]. apply tb_none; [reflexivity|auto].
   - (* AGuardForget *) contradiction.
   - (* AGuardRead *) destruct (guard lc) as [g|] eqn:G; [|discriminate]. injection E as <-.
     destruct (tb_guard lc g H K T G) as [PG _].
-    apply (wp_cs_prog _ (g_mode g) (g_items g) (CRead pos)); [now apply covers_perm|intros v|]; cbn [api_fin]; fin_nostop; exact T.
+    apply (wp_cs_prog _ _ (g_mode g) (g_items g) (CRead pos)); [now apply covers_perm|intros v|]; cbn [api_fin]; fin_nostop; exact T.
   - (* AGuardWrite *) destruct (guard lc) as [g|] eqn:G; [|discriminate]. injection E as <-.
     destruct (tb_guard lc g H K T G) as [PG _].
-    apply (wp_cs_prog _ (g_mode g) (g_items g) (CWrite pos)); [now apply covers_perm|intros v|]; cbn [api_fin]; fin_nostop; exact T.
+    apply (wp_cs_prog _ _ (g_mode g) (g_items g) (CWrite pos)); [now apply covers_perm|intros v|]; cbn [api_fin]; fin_nostop; exact T.
   - (* APanic *) destruct (guard lc) as [g|] eqn:G; injection E as <-; cbn [Wp.wp].
     + destruct (tb_guard lc g H K T G) as [P [Hk Kt]]. apply wp_with_key. unfold ghold in P.
-      apply wp_drop_items; [apply (sub_ok_perm _ _ []); now rewrite app_nil_r|].
+      apply wp_drop_items; [intros _; destruct ZN as [Z|[]]; exact Z|apply (sub_ok_perm _ _ []); now rewrite app_nil_r|].
       rewrite (rel_all_perm_nil _ _ P). cbn [Wp.wp api_fin]. fin_nostop. cbn [fst]. apply tb_none; [reflexivity|discriminate].
     + unfold TB in T. rewrite G in T. destruct T as [EH EK]. subst H. apply wp_with_key. cbn [Wp.wp skip api_fin].
       fin_nostop. cbn [fst]. apply tb_none; [reflexivity|discriminate].
